@@ -94,7 +94,10 @@ def tree_cases(tier, rng):
     return out
 
 def generate(tier, rng):
-    return pair_cases(tier, rng) + divmod_cases(tier, rng) + int_exact_cases(tier, rng) + acceptance_cases(tier, rng) + tree_cases(tier, rng)
+    cases = pair_cases(tier, rng) + divmod_cases(tier, rng) + int_exact_cases(tier, rng) + acceptance_cases(tier, rng) + tree_cases(tier, rng)
+    for _ in range(25 if tier == 'quick' else 500):      # cross-feature programs (gen.rich_program): every data kind, call mode and file kind mixed
+        cases.append(Case(gen.rich_program(rng), limits=dict(steps=30000), stdin=b'typed\n', meta=dict(gen='rich', sample=False)))
+    return cases
 
 def cquot(a, b):
     q = abs(a) // abs(b)
